@@ -421,6 +421,26 @@ Proof. induction sched as [|ch t IH]; intros; simpl; [reflexivity|apply IH]. Qed
 End Model.
 
 (* ------------------------------------------------------------------------------------------ *)
+(** * Executable helpers for the correspondence run (logged call trees replayed through [label])     *)
+
+Fixpoint paths (b : body) : list path :=
+  match b with
+  | Done => []
+  | Act _ k => [] :: map (cons N) (paths k)
+  | Fork _ first rest k =>
+      [] :: map (cons F) (paths first) ++ map (cons R) (paths rest) ++ map (cons N) (paths k)
+  end.
+
+Definition all_labels (hop : Z -> nat -> Z) (c : pcT) (b : body) : list (option evval) :=
+  map (label hop c b) (paths b).
+
+Definition hop_of_table (tbl : list (Z * nat * Z)) (c : Z) (d : nat) : Z :=
+  match find (fun e => Z.eqb (fst (fst e)) c && Nat.eqb (snd (fst e)) d) tbl with
+  | Some e => snd e
+  | None => 0
+  end.
+
+(* ------------------------------------------------------------------------------------------ *)
 (** * Refutation for non-wf programs (shape of finding F-C08: runtime.mod)                        *)
 
 (** main program of a party:
